@@ -13,6 +13,7 @@ again while the sender is still delivering (re-entrancy), destinations that rais
 -/
 import EdzedModel.Output
 import EdzedProofs.Output
+import EdzedModel.Gen.TranslatedOutput
 
 namespace Edzed.Output
 
@@ -343,3 +344,66 @@ example :
   decide +kernel
 
 end Edzed.Output
+
+/-! ### the translation tie: the action order of `set_output` / `eval_block` -/
+namespace Edzed.TrTie
+open Edzed.Output Edzed.Gen.TrO
+
+def eventsOf (c : Cfg) : Slot → List Ev
+  | .output => c.onOutput
+  | .every => c.onEvery
+
+/-- what a list of primitive actions does to a block with configuration `c`: the stored output, "was
+    assigned", "was queued", and the `Event.send` calls made so far (each sees the output stored at that
+    moment).  A `raise` ends the call with nothing done: `raise_only_first` shows that it is never
+    preceded by another action. -/
+def runPrims (c : Cfg) : Val → Bool → Bool → List Sent → List Prim → Res
+  | out, ch, enq, sends, [] => .ok ⟨out, ch, enq, sends⟩
+  | _, _, _, _, .raise _ :: _ => .valueError
+  | _, _, enq, sends, .store v :: r => runPrims c v true enq sends r
+  | out, ch, _, sends, .enqueue :: r => runPrims c out ch true sends r
+  | out, ch, enq, sends, .send slot p v :: r =>
+    runPrims c out ch enq (sends ++ sendAll slot c.name (eventsOf c slot) p v out) r
+  | out, ch, enq, sends, .ret _ :: _ => .ok ⟨out, ch, enq, sends⟩
+
+/-- the model's `setOutput` IS the meaning of the actions of `SBlock.set_output`, translated from the source -/
+theorem translated_set_output_is_model (c : Cfg) (out v : Val) :
+    runPrims c out false false [] (setOutputActs out v c.onEvery) = setOutput c out v := by
+  unfold setOutputActs setOutput
+  cases hu : v.isUndef <;> cases he : out.pyEq v <;> cases h : c.onEvery.isEmpty <;>
+    simp [hu, he, h, runPrims, eventsOf]
+
+/-- the model's `evalBlock` IS the meaning of the actions of `CBlock.eval_block` -/
+theorem translated_eval_block_is_model (c : Cfg) (out v : Val) :
+    runPrims c out false false [] (evalBlockActs out v) = evalBlock c out v := by
+  unfold evalBlockActs evalBlock
+  cases hu : v.isUndef <;> cases he : out.pyEq v <;> simp [hu, he, runPrims, eventsOf]
+
+/-- `eval_block` returns the change indicator -/
+theorem translated_eval_block_returns_changed (c : Cfg) (out v : Val) (s : Step)
+    (h : evalBlock c out v = .ok s) :
+    (evalBlockActs out v).getLast? = some (.ret (some s.changed)) := by
+  unfold evalBlockActs
+  unfold evalBlock at h
+  cases hu : v.isUndef <;> cases he : out.pyEq v <;> simp [hu, he] at h ⊢ <;> (subst h; rfl)
+
+/-- an exception is raised only before anything was done -/
+theorem raise_only_first (own v : Val) (every : List Ev) (e : String) :
+    (.raise e ∈ setOutputActs own v every → setOutputActs own v every = [.raise e])
+    ∧ (.raise e ∈ evalBlockActs own v → evalBlockActs own v = [.raise e]) := by
+  unfold setOutputActs evalBlockActs
+  constructor <;>
+    (cases hu : v.isUndef <;> cases he : own.pyEq v <;> cases hy : every.isEmpty <;> simp [hu, he, hy] <;>
+      exact fun h => h.symm)
+
+/-- the new output is stored and the block is queued for the simulator BEFORE the first event is sent:
+    an exception raised by a destination cannot leave the simulator unaware of a change -/
+theorem store_and_enqueue_before_sending (own v : Val) (every : List Ev)
+    (hu : v.isUndef = false) (hch : own.pyEq v = false) :
+    ∃ rest, setOutputActs own v every = .store v :: .enqueue :: rest
+      ∧ ∀ a ∈ rest, ∃ slot p w, a = .send slot p w := by
+  unfold setOutputActs
+  simp only [hu, hch, Bool.false_eq_true, ↓reduceIte]
+  exact ⟨_, rfl, by simp⟩
+
+end Edzed.TrTie
